@@ -10,6 +10,14 @@ fn main() {
     // the downstream software of the standard output stream closes the pipe and triggers a panic.
     uucore::panic::mute_sigpipe_panic();
 
+    // The commands that are run are waited for: with SIGCHLD ignored (a
+    // disposition inherited from the caller) the kernel would reap them itself
+    // and every wait would fail.
+    #[cfg(unix)]
+    unsafe {
+        uucore::libc::signal(uucore::libc::SIGCHLD, uucore::libc::SIG_DFL);
+    }
+
     let args = std::env::args().collect::<Vec<String>>();
     let strs: Vec<&str> = args.iter().map(std::convert::AsRef::as_ref).collect();
     let deps = findutils::find::StandardDependencies::new();
